@@ -4,6 +4,7 @@ import AV.Spec.C06
 import AV.Spec.C02
 import AV.Spec.C17
 import AV.Spec.Own
+import AV.Lemmas.CbOrder
 open Lean AV AV.Pub
 
 namespace Drv
@@ -729,6 +730,11 @@ def c04Step (sin sobs : Json) : Option String :=
     -- `other` replaces the default effect entirely
     (if phase.any (fun e => e.name != "otherCb") then some s!"an application function for {ty} was supplied as 'other', yet the library also did {(phase.find? fun e => e.name != "otherCb").map (·.name)}" else none)
   else if !fedDefaultsD.contains ty then none else
+  -- the monitor of theorem `fedCb_order`, on the implementation's own trace: the wrapped callback only after success,
+  -- once, last
+  match monRun AV.cbOrderMon {} phase with
+  | .error (k, what) => some s!"event {k} ({what}): the wrapped application callback ran after a failed step of the default effect, twice, or was followed by further library calls"
+  | .ok _ =>
   -- a wrapped callback is the last thing of the phase
   let appIdx := phase.findIdx fun e => e.name == "appCb"
   if appIdx + 1 < phase.length then some "a library call follows the wrapped application callback" else
